@@ -2,7 +2,7 @@
    Abstract-syntax level: the term the model of _get_mave_nt chooses, and - per metadata row - the terms whose printings the
    model of the to_csv loop body writes to mave_nt (widened to a PAM codon or not) and mave_nt_ref; the printing itself is tied
    to the code by the correspondence and decoded by an independent parser in the check (partial for the string level). *)
-From VV Require Import Model.Base Model.Pattern Model.Seq Model.Vcf Model.Mave Model.Gpo Model.ToCsv Model.PyStr Spec.MaveSpec Proofs.MaveProofs Proofs.MaveRowProofs Generated.KernelsMave Proofs.KernelMaveEquiv Proofs.MaveBgProofs.
+From VV Require Import Model.Base Model.Pattern Model.Seq Model.Vcf Model.Mave Model.Gpo Model.ToCsv Model.PyStr Spec.MaveSpec Proofs.MaveProofs Proofs.MaveRowProofs Generated.KernelsMave Proofs.KernelMaveEquiv Proofs.MaveBgProofs Proofs.MaveBgWProofs.
 
 (* for substitutions, deletions, insertions and deletion-insertions of any length at any offset: the variant the code
    prints, applied to a sequence carrying REF at that offset, yields the sequence with REF replaced by ALT; where a
@@ -93,6 +93,24 @@ Theorem C10_row_mave_nt_decodes_under_background : forall c mr o xa (T : dna),
             mave_apply (mave_at m (a + 1)) T = Some (mr_oligo mr).
 Proof. exact row_mave_nt_decodes_bg. Qed.
 
+(* ... and in general under background variants, widened to a PAM codon or not: the printed term is valid (its offset is that of the pre-image
+   of the window start in the reference, which lies in the targeton) and, moved to the offset q of the window in the background sequence,
+   turns the PAM-protected background sequence into the row's oligonucleotide *)
+Theorem C10_row_mave_nt_decodes_under_background_widened : forall c g mr o xa (T : dna),
+  row_out c mr = Ok o -> cx_gpo c = Some g ->
+  p_seq (cx_alt c) = mkSeq xa T ->
+  mr_end mr = get_end (mr_alt_pos mr) (zlen (mr_ref mr)) ->
+  let x0 := s_start (p_seq (cx_seq c)) in
+  let a := mr_alt_pos mr - xa in
+  0 <= a -> a + zlen (mr_ref mr) <= zlen T ->
+  xa <= opt_min (mr_alt_pos mr) (mr_start_ppe mr) -> opt_max (mr_end mr) (mr_end_ppe mr) <= xa + zlen T - 1 ->
+  x0 <= mr_ref_pos mr ->
+  (forall y, alt_to_ref_position g (opt_min (mr_alt_pos mr) (mr_start_ppe mr)) = Ok (Some y) -> x0 <= y) ->
+  mr_oligo mr = zfirstn a T ++ mr_alt mr ++ zskipn (a + zlen (mr_ref mr)) T ->
+  exists m q, o_mave_nt o = print_mave m /\ mave_valid m = true /\ 1 <= q /\
+              mave_apply (mave_at m q) T = Some (mr_oligo mr).
+Proof. exact row_mave_nt_decodes_bg_widened. Qed.
+
 Print Assumptions C10_mave_of_apply.
 Print Assumptions C10_ins_flanks.
 Print Assumptions C10_row_mave_nt_decodes.
@@ -100,3 +118,4 @@ Print Assumptions C10_widening_same_edit.
 Print Assumptions C10_row_mave_nt_ref_decodes.
 Print Assumptions C10_mave_strings_match_source.
 Print Assumptions C10_row_mave_nt_decodes_under_background.
+Print Assumptions C10_row_mave_nt_decodes_under_background_widened.
